@@ -297,6 +297,37 @@ Definition construct (d : cdecl) (kw : list (pstr * iv)) : res iv :=
   let (vals, miss) := build_fields (d_fields d) kw in
   match miss with [] => Ok (VInst (d_id d) vals) | _ => Er (EMissingFields (d_id d) miss) end.
 
+(* the `for json_key in o` loop of a generated cls_fromdict; `rec` runs a nested
+   class's generated function *)
+Section LoadLoop.
+Variable rec : sigma -> lfn -> jv -> sigma * res iv.
+Variable f : lfn.
+Variable ps : list (pstr * parser).
+Fixpoint load_loop (s : sigma) (kv : list (pstr * jv)) (kw : list (pstr * iv)) {struct kv}
+  : sigma * res (list (pstr * iv)) :=
+  match kv with
+  | [] => (s, Ok kw)
+  | (k, v) :: rest =>
+      match resolve s f (map fst ps) k with
+      | (s1, Er e) => (s1, Er e)
+      | (s1, Ok KNull) => load_loop s1 rest kw
+      | (s1, Ok (KField x)) =>
+          match assoc_s x ps with
+          | None => (s1, Er EModel)
+          | Some p =>
+              match (match p with
+                     | PInt => (s1, conv_int v)
+                     | PStr => (s1, conv_str v)
+                     | PNested g => let (s', r) := rec s1 g v in (s', attribute (l_cls f) x r)
+                     end) with
+              | (s2, Er e) => (s2, Er e)
+              | (s2, Ok w) => load_loop s2 rest (set_assoc_s x w kw)
+              end
+          end
+      end
+  end.
+End LoadLoop.
+
 (* run a generated cls_fromdict *)
 Fixpoint exec_load (s : sigma) (f : lfn) (doc : jv) {struct doc} : sigma * res iv :=
   match doc with
@@ -307,32 +338,7 @@ Fixpoint exec_load (s : sigma) (f : lfn) (doc : jv) {struct doc} : sigma * res i
       let n := l_cls f in
       match cs_parsers (st_cls s n), cs_decl (st_cls s n) with
       | Some ps, Some d =>
-          let names := map fst ps in
-          let fix loop (s : sigma) (kv : list (pstr * jv)) (kw : list (pstr * iv)) {struct kv}
-            : sigma * res (list (pstr * iv)) :=
-            match kv with
-            | [] => (s, Ok kw)
-            | (k, v) :: rest =>
-                match resolve s f names k with
-                | (s1, Er e) => (s1, Er e)
-                | (s1, Ok KNull) => loop s1 rest kw
-                | (s1, Ok (KField x)) =>
-                    match assoc_s x ps with
-                    | None => (s1, Er EModel)
-                    | Some p =>
-                        let '(s2, rv) := match p with
-                                         | PInt => (s1, conv_int v)
-                                         | PStr => (s1, conv_str v)
-                                         | PNested g => let (s', r) := exec_load s1 g v in (s', attribute n x r)
-                                         end in
-                        match rv with
-                        | Er e => (s2, Er e)
-                        | Ok w => loop s2 rest (set_assoc_s x w kw)
-                        end
-                    end
-                end
-            end in
-          match loop s kv [] with
+          match load_loop (fun s0 g v => exec_load s0 g v) f ps s kv [] with
           | (s', Er e) => (s', Er e)
           | (s', Ok kw) => (s', construct d kw)
           end
@@ -348,35 +354,42 @@ Definition bind_attrs (s : sigma) (n : cid) (m : meta) : sigma :=
 Definition attr_lookup {A} (s : sigma) (get : cstate -> option A) (classes : list cid) : option A :=
   fold_right (fun c acc => match get (st_cls s c) with Some f => Some f | None => acc end) None classes.
 
+(* building FIELD_NAME_TO_LOAD_PARSER[cls]: one parser per field; `rec` generates the
+   function of a nested class *)
+Section GenParsers.
+Variable rec : sigma -> cdecl -> sigma * lfn.
+Fixpoint gen_parsers (s : sigma)
+         (fs : list (pstr * fty cdecl * option dval)) {struct fs} : sigma * list (pstr * parser) :=
+  match fs with
+  | [] => (s, [])
+  | f :: r =>
+      let '(sa, p) := match snd (fst f) with
+                      | TInt => (s, PInt)
+                      | TStr => (s, PStr)
+                      | TNested dm => let (s', g) := rec s dm in (s', PNested g)
+                      end in
+      let (sb, ps) := gen_parsers sa r in (sb, (fst (fst f), p) :: ps)
+  end.
+End GenParsers.
+
+(* the Meta in force and the config handed to nested classes *)
+Definition gen_meta (own : option meta) (main : bool) (cfg : option meta) : meta * option meta :=
+  if main then (opt_meta own, cfg_of own) else (eff own cfg, cfg).
+
 (* load_func_for_dataclass (loaders.py:544-790) *)
 Fixpoint gen_load (s : sigma) (d : cdecl) (main : bool) (cfg : option meta) {struct d} : sigma * lfn :=
   match d with
   | CDecl info fields =>
       let n := ci_id info in
       let own := own_meta s n in
-      let '(s1, m, cfg') :=
-        if main then (s, opt_meta own, cfg_of own)
-        else match cfg with
-             | Some g => let m := eff own cfg in (bind_attrs s n m, m, cfg)
-             | None => (s, opt_meta own, None)
-             end in
+      let m := fst (gen_meta own main cfg) in
+      let cfg' := snd (gen_meta own main cfg) in
+      let s1 := if main then s else match cfg with Some _ => bind_attrs s n m | None => s end in
       let s2 :=
         match cs_parsers (st_cls s1 n) with
         | Some _ => s1
         | None =>
-            let fix go (s : sigma) (fs : list (pstr * fty cdecl * option dval)) {struct fs}
-              : sigma * list (pstr * parser) :=
-              match fs with
-              | [] => (s, [])
-              | (x, ty, _) :: r =>
-                  let '(sa, p) := match ty with
-                                  | TInt => (s, PInt)
-                                  | TStr => (s, PStr)
-                                  | TNested dm => let (s', g) := gen_load s dm false cfg' in (s', PNested g)
-                                  end in
-                  let (sb, ps) := go sa r in (sb, (x, p) :: ps)
-              end in
-            let (s', ps) := go s1 fields in
+            let (s', ps) := gen_parsers (fun s0 dm => gen_load s0 dm false cfg') s1 fields in
             updc s' n (w_parsers (Some ps))
         end in
       let f := {| l_cls := n; l_tr := cs_ltr (st_cls s2 n); l_raise := raise_of m |} in
@@ -534,8 +547,7 @@ Fixpoint dumpv (v : iv) {struct v} : dclosure :=
   | VStr t => fun _ _ _ s => (s, Ok (JStr t))
   | VSub t z => fun _ howner _ s => let (s', j) := dump_sub s howner t z in (s', Ok j)
   | VInst m fs =>
-      let cl := (fix mk (fs : list (pstr * iv)) : list (pstr * dclosure) :=
-                   match fs with [] => [] | (x, fv) :: r => (x, dumpv fv) :: mk r end) fs in
+      let cl := map (fun p => (fst p, dumpv (snd p))) fs in
       fun root _ cfg s =>
         match assoc_n m (cs_nested_dfns (st_cls s root)) with
         | Some g => call_dfn g root cl fs s
